@@ -1282,7 +1282,7 @@ class NNDescent:
                 return (0, 0)
 
             self._tree_search = tree_search_closure
-            tree_indices = np.zeros(1, dtype=np.int64)
+            tree_indices = np.zeros(1, dtype=np.int32)
 
         alternative_dot = pynnd_dist.alternative_dot
         alternative_cosine = pynnd_dist.alternative_cosine
@@ -1472,7 +1472,7 @@ class NNDescent:
                 return (0, 0)
 
             self._tree_search = sparse_tree_search_closure
-            tree_indices = np.zeros(1, dtype=np.int64)
+            tree_indices = np.zeros(1, dtype=np.int32)
 
         from pynndescent.distances import alternative_dot, alternative_cosine
 
